@@ -49,6 +49,12 @@ def sym_inputs(ex, path, y_shape, alpha_shape):
 
 # ---- the documented formulas (Efron & Hastie ch. 11), independent of the code --------------------------------------
 
+def spec_not_nan(N, y, ThN):
+    """number of finite replicates of component y"""
+    sumr = UF("sum_red", ArrS, IntSort(), RealSort())
+    return sumr(P.canon_lambda(lambda i: If(Not(ThN(i, y)), RealVal(1), RealVal(0))), N)
+
+
 def spec_limit(method, N, y, a, upper, Th, ThN, Hat):
     L = P.canon_lambda
     col = L(lambda i: Th(i, y))
@@ -128,9 +134,12 @@ def build_one(method, ysh, ash):
     rng_ = ([And(0 <= y, y < toI(Y.size))] if Y is not None else []) + ([And(0 <= z, z < toI(Z.size))] if Z is not None else [])
     idx = ([y] if Y is not None else []) + ([z] if Z is not None else [])
     a = alpha.elem(z) if Z is not None else alpha
+    # bc / bca: the documented formula needs the fraction of finite replicates not exceeding the estimate, which is defined only when the
+    # component has at least one finite replicate ("NaNs ignored"); a component without any is covered by the bounded layer (NaN limits)
+    has_data = [spec_not_nan(N, y, ThN) != 0] if method != "quantile" else []
     for b, nm in ((0, "lower"), (1, "upper")):
         got = toR(res.elem(*idx, b))
-        ob(f"{nm}-limit-equals-the-documented-formula", got == spec_limit(method, N, y, a, bool(b), Th, ThN, Hat), hy + rng_)
+        ob(f"{nm}-limit-equals-the-documented-formula", got == spec_limit(method, N, y, a, bool(b), Th, ThN, Hat), hy + rng_ + has_data)
     # per-component independence: (structural) the loop over the components is a map loop / the vectorised reductions are along
     # the replicate axis only -- recorded by the engine (a non-independent loop raises Unsupported)
     for so in ex.obligs:
@@ -257,6 +266,10 @@ def oracle(case):
         m = rng.rand(*shape) < 0.25
         m[0] = False
         theta = np.where(m, np.nan, theta)
+    if case.get("empty_component"):
+        # one metric component (or the only one) without any finite replicate: its limits are NaN, the others are unaffected
+        theta = np.array(theta, dtype=float)
+        theta.reshape(N, -1)[:, 0] = np.nan
     hat_kind = case.get("hat", "median")
     with np.errstate(all="ignore"):
         hat = np.zeros(yshape) if hat_kind == "zero" else np.nanmedian(theta, axis=0) if hat_kind == "median" else (np.nanmax(theta, axis=0) + 1.0 if hat_kind == "above" else np.nanmin(theta, axis=0) - 1.0 if hat_kind == "below" else theta[0])
@@ -317,8 +330,11 @@ def replay(case):
 def eval_items(items):
     counts, viols = {"bootstrap_ci": [0, 0]}, []
     for case in items:
+        import warnings
         try:
-            res = oracle(case)
+            with warnings.catch_warnings():
+                warnings.simplefilter("ignore")          # "All-NaN slice" of np.nanquantile on a component without finite replicates
+                res = oracle(case)
         except Exception as e:
             res = f"bootstrap_ci raised {type(e).__name__}: {e} for {case}"
         counts["bootstrap_ci"][0] += 1
@@ -350,7 +366,13 @@ def bounded(chk):
                     for seed in range(4):
                         items.append({"method": method, "N": N, "yshape": list(yshape), "kind": "outlier", "nan": nan, "hat": "zero", "seed": chk.seed * 1000 + seed,
                                       "alphas": [1e-6, 1e-5, 0.05]})
-    chk.bounded["bound"] = "outlier-laden data with alpha down to 1e-6 (acceleration term beyond its pole: formula agreement only); N in {1,2,7,40,200} replicates; metric shapes (), (3,), (2,2); normal / discrete / constant / skewed / tiny-scale data, with and without 25% NaNs; estimate at the median, a replicate, above or below all; alphas 0.01, 0.05, 0.3 (scalar and vector); seeded"
+    for method in ("quantile", "bc", "bca"):
+        for N in (1, 5):
+            for yshape in ((), (3,), (2, 2)):
+                for hat in ("median", "first"):
+                    items.append({"method": method, "N": N, "yshape": list(yshape), "kind": "normal", "nan": False, "hat": hat, "seed": chk.seed * 1000 + 7,
+                                  "alphas": [0.05, 0.3], "empty_component": True})
+    chk.bounded["bound"] = "a metric component without any finite replicate (limits NaN, other components unaffected); outlier-laden data with alpha down to 1e-6 (acceleration term beyond its pole: formula agreement only); N in {1,2,7,40,200} replicates; metric shapes (), (3,), (2,2); normal / discrete / constant / skewed / tiny-scale data, with and without 25% NaNs; estimate at the median, a replicate, above or below all; alphas 0.01, 0.05, 0.3 (scalar and vector); seeded"
     chk.bounded["rule"] = "grid x seeds; compared with an independent NumPy/SciPy transcription of the documented formulas"
     run_bounded(chk, items, eval_items)
     chk.samples.append({"bounded-case": items[101]})
